@@ -32,6 +32,7 @@ RULE = (
     "re-inspect / assign / attribute-assign / state.set (value x new_attributes x keywords, positional and "
     "keyword forms, snapshot as value) / state.setattr / del / state.delete / state.exist / state.names / "
     "state.getattr over 2-3 entities x 2 attributes + 2 shadowed names, values str/int/float/bool/None/list/dict; "
+    "optional native services of the same names, optional @state_trigger on the busiest names; "
     "an external writer and stalls on the virtual clock; writer start and per-operation timing: same pass, few "
     "passes, 0.25 s grid); distinct = scenario digest; non-trivial = at least 2 script writes that changed the "
     "state machine and at least 2 reads judged against the model"
@@ -59,8 +60,8 @@ ASSUMPTIONS = [
     "read/assign/del through a shadowing Python variable, are not generated (documentation is silent)",
 ]
 TIERS = {
-    "quick": {"runs": 1600, "chunk": 50, "max_ops": 30},
-    "thorough": {"runs": 20000, "chunk": 250, "max_ops": 40},
+    "quick": {"runs": 2400, "chunk": 75, "max_ops": 30},
+    "thorough": {"runs": 40000, "chunk": 250, "max_ops": 40},
 }
 REACH_PROBES = [
     "two_writers_one_entity", "snapshot_reread_after_write", "delete_then_read", "stateval_as_value",
@@ -128,12 +129,12 @@ def _gen_set(rng: random.Random, ent: str, captured: list[int]) -> dict:
 
 
 def _gen_wop(rng: random.Random, ents: list[str], hot: str | None, svc: list[str], shadow_names: list[str],
-             captured: list[int]) -> dict:
+             captured: list[int], shadow_del: bool = True) -> dict:
     """One writer operation (without timing). ``captured``: slots that hold a snapshot so far (updated)."""
     roll = rng.random()
     if shadow_names and roll < 0.12:
         ent = rng.choice(shadow_names)
-        kind = rng.choice(["read", "read", "read", "assign", "assign", "del"])
+        kind = rng.choice(["read", "read", "read", "assign", "assign", "del" if shadow_del else "read"])
         op = {"k": kind, "e": ent}
         if kind == "assign":
             op["v"] = _gen_val(rng)
@@ -218,6 +219,9 @@ def gen(rng: random.Random, tier: str) -> dict:
     if rng.random() < 0.25:
         svc += [G_ENT, L_ENT]  # the shadowed names are service names as well: variables win over both
     gshadow = rng.random() < 0.3
+    # `del` through a shadowing variable is a known finding (it goes to the state machine); most runs steer
+    # clear of it so that everything after it in a run keeps being judged
+    shadow_del = rng.random() < 0.35
     initial = {}
     for ent in ents:
         if rng.random() < 0.6:
@@ -241,7 +245,7 @@ def gen(rng: random.Random, tier: str) -> dict:
         captured: list[int] = []
         for _ in range(rng.randint(max(2, share // 2), share)):
             op = gen_delay(rng, burst_p=burst_p, max_steps=4)
-            op.update(_gen_wop(rng, ents, hot, svc, shadow_names, captured))
+            op.update(_gen_wop(rng, ents, hot, svc, shadow_names, captured, shadow_del))
             wops.append(op)
         writers.append({"name": f"w{wi}", "lshadow": lshadow, "ops": wops})
     ops = []
@@ -262,7 +266,7 @@ def gen(rng: random.Random, tier: str) -> dict:
         ops.insert(rng.randint(1, len(ops)), op)
     return {
         "cfg": cfg,
-        "spec": {"ents": ents, "svc": svc, "gshadow": gshadow, "writers": writers},
+        "spec": {"ents": ents, "svc": svc, "gshadow": gshadow, "trig": rng.random() < 0.4, "writers": writers},
         "ops": ops,
     }
 
@@ -337,6 +341,9 @@ def render(scn: dict) -> dict:
     lines = ["from types import SimpleNamespace", ""]
     if spec["gshadow"]:
         lines += [f"{G_DOM} = SimpleNamespace({G_ATTR}={G_INIT!r})", ""]
+    if spec.get("trig"):
+        # a state trigger on the busiest names switches on pyscript's notify bookkeeping inside state.set/delete
+        lines += [f"@state_trigger({spec['ents'][0]!r}, {spec['ents'][1] + '.a0'!r})", "def trig(**kw):", "    pass", ""]
     for wr in spec["writers"]:
         name = wr["name"]
         lines += ["@service", f"def {name}():", "    P = sim.get('pre')"]
@@ -408,6 +415,10 @@ def simplify(scn: dict):
     ):
         cand = copy.deepcopy(scn)
         cand["spec"]["gshadow"] = False
+        yield cand
+    if scn["spec"].get("trig"):
+        cand = copy.deepcopy(scn)
+        cand["spec"]["trig"] = False
         yield cand
     if scn["cfg"].get("initial_states"):
         for ent in list(scn["cfg"]["initial_states"]):
@@ -897,9 +908,7 @@ def oracle(w: C16World, scn: dict):  # noqa: C901  pylint: disable=too-many-bran
         if k == "names":
             dom = op["dom"]
             exp_v = [n for n in step["names"] if dom is None or n.startswith(dom + ".")]
-            mine = sorted(e for e in model if dom is None or e.startswith(dom + "."))
-            if [n for n in exp_v if n in ALL_ENTS] != mine:
-                pass  # the photo comparison below reports it
+            # exp_v is HA's own listing at this instant; that HA agrees with the model is checked by the photo
             got_v = res.get("v") if st == "ok" and res["t"] == "val" else None
             if not isinstance(got_v, list) or sorted(got_v) != exp_v:
                 viol("names", {"op": "state.names", "domain": "none" if dom is None else "given"},
@@ -935,7 +944,6 @@ def oracle(w: C16World, scn: dict):  # noqa: C901  pylint: disable=too-many-bran
         # candidates: list of (state or None = any, attrs) acceptable outcomes; [] = no change
         cands: list = []
         may_raise = False  # outcome (ok / exception) not specified
-        must_ok = True
         primary_kw: dict = {}
         if k in ("assign", "set"):
             if k == "assign":
@@ -951,8 +959,7 @@ def oracle(w: C16World, scn: dict):  # noqa: C901  pylint: disable=too-many-bran
             elif vspec["m"] == "omit" or "slot" in vspec or vspec.get("v") is None:
                 if cur is not None:
                     values = [cur["s"]]
-                    if k == "set" or True:
-                        w.probe("omitted_value_kept")
+                    w.probe("omitted_value_kept")
                     if k == "assign":
                         values.append("None")
                 else:
